@@ -51,6 +51,7 @@ type reg struct {
 	names map[string]int
 	// implied: sources exercised only through another constructor's part (e.g. obj.PipeLookup)
 	implied map[string]bool
+	skipped []string
 }
 
 func (g *reg) name(source, tag string) string {
@@ -68,8 +69,10 @@ func (g *reg) fail(doc bool, source, tag, params string, err interface{}, panick
 		g.errs = append(g.errs, fmt.Sprintf("PANIC %s/%s doc=%v params=%s: %v", source, tag, doc, params, err))
 	case doc:
 		g.errs = append(g.errs, fmt.Sprintf("documented example failed: %s/%s params=%s: %v", source, tag, params, err))
+	default:
+		// an error on a perturbed variant is skipped silently (kept for diagnostics only)
+		g.skipped = append(g.skipped, fmt.Sprintf("%s/%s params=%s: %v", source, tag, params, err))
 	}
-	// an error on a perturbed variant is skipped silently
 }
 
 // p3 registers a 3D part; f is run under recover.
@@ -192,11 +195,19 @@ func vtag(i int, s string) string {
 // perturbed VALID variants derived from rng.  A constructor error on a perturbed variant is
 // skipped silently; on a documented example it is reported in errs (as is any panic).
 func All(rng *kit.Rng) (parts []Part, errs []string) {
-	g := &reg{r: rng, names: map[string]int{}, implied: map[string]bool{}}
+	// kit.NewRng(k+1) yields the stream of kit.NewRng(k) shifted by one draw (SplitMix64 with the
+	// seed multiplied by its own increment), and the data-dependent number of draws below lets two
+	// such streams re-synchronise; re-seed from an output word so that nearby seeds are unrelated.
+	g := &reg{r: kit.NewRng(rng.U64()), names: map[string]int{}, implied: map[string]bool{}}
 	g.objParts()
 	g.sdfParts()
+	LastSkipped = g.skipped
 	return g.parts, g.errs
 }
+
+// LastSkipped lists the perturbed variants of the most recent All call whose constructor returned
+// an error (they are not parts and not errors; diagnostics for the registry's own generators).
+var LastSkipped []string
 
 // sources returns the set of constructor names the registry exercised (directly or implied)
 func sources() map[string]bool {
